@@ -54,13 +54,13 @@ theorem C13_neutralise_structure (ind : Option Nat) (v : Json) :
 
 /-- the element is rendered by the ordinary renderer as OPEN, the body verbatim, CLOSE -/
 theorem C13_element_render (ind : Option Nat) (d : SDep) (eol : Str) :
-    (serNode ind d).render cfg 0 eol = serialize ind d := by
+    (serNode ind d).render cfg 0 eol = tdSerialize ind d := by
   have hne : (['s', 'c', 'r', 'i', 'p', 't'] : Str) ∈ cfg.noesc := by decide
   have ha : htmlEscapeT cfg.attrTbl ['a', 'p', 'p', 'l', 'i', 'c', 'a', 't', 'i', 'o', 'n', '/', 'j', 's', 'o', 'n']
       = ['a', 'p', 'p', 'l', 'i', 'c', 'a', 't', 'i', 'o', 'n', '/', 'j', 's', 'o', 'n'] := by decide
   have hb : htmlEscapeT cfg.attrTbl [] = [] := by decide
   simp [serNode, Node.render, Nodes.visible, Node.isMeta, inlineChild?, inlineText, hne, openTag, renderAttrs,
-    emitAttrVal, ha, hb, closeTag, indentStr, serialize, openMarker, closeMarker]
+    emitAttrVal, ha, hb, closeTag, indentStr, tdSerialize, openMarker, closeMarker]
 
 /-- whatever strings the dependency contains, no end-tag-like `</script` in any letter case occurs inside the
     serialised element before its own closing tag -/
@@ -98,7 +98,7 @@ theorem C13_scan_step (t rest body post : Str) (h : ¬ openMarker <:+: t) (hb : 
 
 /-- dedup by exact serialised text, keeping the first occurrence, in order of appearance -/
 theorem C13_dedup_keep_first (x : Str) (l : List Str) :
-    dedupKeepFirst [] = [] ∧ dedupKeepFirst (x :: l) = x :: dedupKeepFirst (l.filter (· ≠ x)) :=
+    tdDedupKeepFirst [] = [] ∧ tdDedupKeepFirst (x :: l) = x :: tdDedupKeepFirst (l.filter (· ≠ x)) :=
   ⟨rfl, dedupKeepFirst_cons x l⟩
 
 /-- `HTMLDependency(**record)` gives back name, version, source, script, stylesheet, meta, all_files, and head as
